@@ -183,7 +183,7 @@ int main (int argc, char **argv)
 	vh_init (argc, argv, "c09_invalid_calls", "C09") ;
 	if (vh_case ("open failures, NULL handle, error-number table")) { vh_distinct (1) ; vh_distinct (2) ; open_failures () ; }
 	for (f = 0 ; f < 12 ; f++) for (mi = 0 ; mi < 3 ; mi++) for (a = 0 ; a < NCALLS ; a++)
-	{	MEMF base ; int format = fmts [f][0], ch = fmts [f][1], depth = vh_thorough ? 3 : (f < 4 ? 3 : 2) ;
+	{	MEMF base ; int format = fmts [f][0], ch = fmts [f][1], depth = 3 ;
 		if (!vh_case ("%s ch=%d mode=%s first=%s depth=%d", vh_fname (format), ch, mi == 0 ? "read" : mi == 1 ? "write" : "rdwr", calls [a].name, depth)) continue ;
 		if (vh_make_file (&base, format, ch, 8000, 700, 1) != 0) { mv_free (&base) ; continue ; }
 		vh_sample ("%s ch=%d mode=%s: every sequence of %d calls from the %d-call alphabet starting with %s", vh_fname (format), ch, mi == 0 ? "read" : mi == 1 ? "write" : "rdwr", depth, NCALLS, calls [a].name) ;
